@@ -24,6 +24,10 @@ func (pms PublicKeyMultiSignature) NewMultiKey(keys ...PublicKey) (PublicKeyMult
 }
 
 func (pms PublicKeyMultiSignature) VerifyBytes(msg []byte, multiSignature []byte) bool {
+	// a key without components (only a decoder can produce one) has nobody to sign: it verifies nothing
+	if len(pms.PublicKeys) == 0 {
+		return false
+	}
 	var multiSig MultiSig
 	err := cdc.UnmarshalBinaryBare(multiSignature, &multiSig)
 	if err != nil {
